@@ -48,6 +48,13 @@ def unnorm(vec, p_hint=None):
                 ok = False
                 break
         if ok:
+            if isinstance(p_hint, Sym) and p_hint.re.t and d0.re.t:
+                # quotient atoms are stored with normalised numerator / denominator: rescale the pair so that the denominator
+                # has the reference probability's scale (keeps symbolic and concrete runs comparable)
+                f = core._lead(p_hint.re) / core._lead(d0.re)
+                if f != 1:
+                    nums = [x * f for x in nums]
+                    d0 = d0 * f
             return nums, d0
     if p_hint is not None:
         return [Sym.of(x) * p_hint if isinstance(p_hint, Sym) or isinstance(x, Sym) else x * np.real(p_hint) for x in xs], p_hint
@@ -475,9 +482,9 @@ def obligations(tier):
                  tiers(tier, [], [{"sys": "T1", "g2": "mix", "g1sym": True}]), ob_gate_gate, 2)
     out += specs("C06.born", [{"sys": "Q1", "pidx": k} for k in tiers(tier, [1, 3, 4], [0, 1, 2, 3, 4, 5])] + [{"sys": "T1", "pidx": 9}] + tiers(tier, [], [{"sys": "Q2", "pidx": 4}]), ob_born, 2)
     out += specs("C06.povm_gate", [{"sys": "Q1", "pidx": 3, "gname": "ampdamp"}, {"sys": "Q1", "pidx": 4, "gname": "S"}, {"sys": "T1", "pidx": 9, "gname": "mix"}], ob_povm_gate)
-    out += specs("C06.mprocess_state", [{"sys": "Q1", "mname": m} for m in ["z_then_U", "trine3", "reset2"]] + [{"sys": "T1", "mname": "proj_then_U"}], ob_mprocess_state, 3)
+    out += specs("C06.mprocess_state", [{"sys": "Q1", "mname": m} for m in ["z_then_U", "trine3", "reset2"]] + tiers(tier, [], [{"sys": "T1", "mname": "proj_then_U"}]), ob_mprocess_state, 3)
     out += specs("C06.mprocess_zero", [{"sys": "Q1"}], ob_mprocess_zero)
-    out += specs("C06.mprocess_mprocess", [{"sys": "Q1", "m2": "trine3", "m1": "z_then_U"}, {"sys": "Q1", "m2": "z_then_U", "m1": "trine3"}], ob_mm, 4)
+    out += specs("C06.mprocess_mprocess", [{"sys": "Q1", "m2": "trine3", "m1": "z_then_U"}] + tiers(tier, [], [{"sys": "Q1", "m2": "z_then_U", "m1": "trine3"}]), ob_mm, 4)
     for kinds, names in CHAINS_Q1 + tiers(tier, [], CHAINS_LONG):
         n_meas = sum(1 for k in kinds if k == "mprocess") + (1 if kinds[-1] == "povm" else 0)
         out += specs("C06.bracket", [{"sys": "Q1", "kinds": kinds, "names": names, "one_param": n_meas >= 2}], ob_bracket, 3 * len(kinds))
